@@ -77,6 +77,40 @@ def resolve(key):
     return obj
 
 
+class _Fwd:
+    def __init__(self, name):
+        self.name = name
+
+
+def resolve_fwd(v, named, seen=None):
+    seen = seen if seen is not None else set()
+    if isinstance(v, _Fwd):
+        return named[v.name]
+    if id(v) in seen:
+        return v
+    if isinstance(v, list):
+        seen.add(id(v))
+        v[:] = [resolve_fwd(x, named, seen) for x in v]
+        return v
+    if isinstance(v, tuple):
+        return tuple(resolve_fwd(x, named, seen) for x in v)
+    if isinstance(v, dict):
+        seen.add(id(v))
+        items = [(resolve_fwd(k, named, seen), resolve_fwd(x, named, seen)) for k, x in v.items()]
+        v.clear()
+        v.update(items)
+        return v
+    if hasattr(v, "__dict__") and not isinstance(v, type) and type(v).__module__ != "builtins":
+        seen.add(id(v))
+        for k, x in list(vars(v).items()):
+            try:
+                object.__setattr__(v, k, resolve_fwd(x, named, seen))
+            except Exception:
+                pass
+        return v
+    return v
+
+
 def build(v, named):
     if isinstance(v, dict):
         if "$int" in v:
@@ -94,6 +128,8 @@ def build(v, named):
         if "$dict" in v:
             return {build(k, named): build(x, named) for k, x in v["$dict"]}
         if "$ref" in v:
+            if v["$ref"] not in named:
+                return _Fwd(v["$ref"])
             return named[v["$ref"]]
         if "$named" in v:
             val = build(v["value"], named)
@@ -365,8 +401,22 @@ def run(replay, tolerant=False):
     env = {}
     for p in c.params:
         env[p] = build(replay["inputs"].get(p), named)
+    for p in list(env):
+        env[p] = resolve_fwd(env[p], named)
+    for n in list(named):
+        named[n] = resolve_fwd(named[n], named)
     for n, v in named.items():
         env.setdefault(n, v)
+    # trusted stubs of the contract stand in for the same callees natively
+    restore = []
+    for key, stubname in getattr(c, "stubs", {}).items():
+        modname, _, qual = key.partition(":")
+        owner = importlib.import_module(modname)
+        parts = qual.split(".")
+        for part in parts[:-1]:
+            owner = getattr(owner, part)
+        restore.append((owner, parts[-1], getattr(owner, parts[-1])))
+        setattr(owner, parts[-1], getattr(mod, stubname))
     out = {"contract": c.name, "requires_ok": True, "outcome": None, "failed": [], "errors": []}
     for text in c.requires:
         try:
@@ -448,6 +498,8 @@ def run(replay, tolerant=False):
                 pass
     finally:
         logging.getLogger().removeHandler(h)
+        for owner, name, orig in restore:
+            setattr(owner, name, orig)
     return out
 
 
